@@ -18,6 +18,70 @@ pub struct PRt {
     pub chain_mismatch: Option<String>,
     /// (split point, re-encoding of what the segmented decode produced) where PartialEq said "different"
     pub chain_suspects: Vec<(usize, Vec<u8>)>,
+    /// a frame followed by more data was not decoded like the framed slice on its own
+    pub frame_mismatch: Option<String>,
+    /// (announced length, re-encoding of the slice decoded alone, re-encoding of the framed decode)
+    /// where PartialEq said "different" (NaN, too): the caller compares through the reference decoder
+    pub frame_suspects: Vec<(usize, Vec<u8>, Vec<u8>)>,
+}
+
+#[derive(Clone, Debug, Default)]
+pub struct FrameDiff {
+    pub mismatch: Option<String>,
+    pub suspects: Vec<(usize, Vec<u8>, Vec<u8>)>,
+}
+
+fn put_varint(out: &mut Vec<u8>, mut v: u64) {
+    while v >= 0x80 {
+        out.push((v as u8) | 0x80);
+        v >>= 7;
+    }
+    out.push(v as u8);
+}
+
+/// Length-delimited framing is "decode exactly the announced slice": for announced lengths
+/// len, len-1, len-2, len/2 the frame `varint(n) ++ bytes ++ more data` must be accepted iff
+/// `decode(bytes[..n])` is, give the same message, and leave the reader right behind the frame.
+fn frame_diff<M: Message + Default + PartialEq + Debug>(bytes: &[u8]) -> FrameDiff {
+    use bytes::Buf;
+    let mut out = FrameDiff::default();
+    let fail = |m: String| FrameDiff { mismatch: Some(m), suspects: vec![] };
+    let len = bytes.len();
+    let mut cuts = vec![0usize, 1, 2, len / 2];
+    cuts.sort();
+    cuts.dedup();
+    for k in cuts {
+        if k > len {
+            continue;
+        }
+        let n = len - k;
+        let alone = M::decode(Bytes::copy_from_slice(&bytes[..n]));
+        let mut framed = vec![];
+        put_varint(&mut framed, n as u64);
+        let head = framed.len();
+        framed.extend_from_slice(bytes);
+        // what follows the frame looks like further records
+        framed.extend_from_slice(&bytes[..len.min(16)]);
+        framed.extend_from_slice(&[0x08, 0x01, 0x08, 0x01]);
+        let total = framed.len();
+        let mut buf = Bytes::from(framed);
+        let got = M::decode_length_delimited(&mut buf);
+        let consumed = total - buf.remaining();
+        match (alone, got) {
+            (Ok(a), Ok(g)) => {
+                if a != g && out.suspects.len() < 2 {
+                    out.suspects.push((n, a.encode_to_vec(), g.encode_to_vec()));
+                }
+                if consumed != head + n {
+                    return fail(format!("frame announcing {} of {} bytes: {} bytes consumed, the frame occupies {}", n, len, consumed, head + n));
+                }
+            }
+            (Err(_), Err(_)) => {}
+            (Ok(_), Err(e)) => return fail(format!("frame announcing {} of {} bytes rejected ({:?}) although those {} bytes decode alone", n, len, e, n)),
+            (Err(e), Ok(_)) => return fail(format!("frame announcing {} of {} bytes accepted ({} bytes consumed) although those {} bytes alone are rejected: {:?}", n, len, consumed, n, e)),
+        }
+    }
+    out
 }
 
 fn roundtrip<M: Message + Default + PartialEq + Debug>(bytes: &[u8]) -> PRt {
@@ -61,6 +125,9 @@ fn roundtrip<M: Message + Default + PartialEq + Debug>(bytes: &[u8]) -> PRt {
         Ok(m3) => m3.encode_to_vec().len() == out.reencoded.len(),
         Err(_) => false,
     };
+    let fd = frame_diff::<M>(bytes);
+    out.frame_mismatch = fd.mismatch;
+    out.frame_suspects = fd.suspects;
     out
 }
 
@@ -126,6 +193,7 @@ pub struct POps {
     pub merge2: fn(&[u8], &[u8]) -> PMerge,
     pub decode_only: fn(&[u8]) -> bool,
     pub decode_delimited_only: fn(&[u8]) -> bool,
+    pub frame_diff: fn(&[u8]) -> FrameDiff,
     pub leak_probe: fn(&[u8]) -> (bool, bool),
 }
 
@@ -137,5 +205,5 @@ pub struct PEntry {
 }
 
 pub fn pentry<M: Message + Default + PartialEq + Debug + 'static>(unit: &'static str, path: &'static str) -> PEntry {
-    PEntry { unit, path, ops: POps { roundtrip: roundtrip::<M>, merge2: merge2::<M>, decode_only: decode_only::<M>, decode_delimited_only: decode_delimited_only::<M>, leak_probe: leak_probe::<M> } }
+    PEntry { unit, path, ops: POps { roundtrip: roundtrip::<M>, merge2: merge2::<M>, decode_only: decode_only::<M>, decode_delimited_only: decode_delimited_only::<M>, frame_diff: frame_diff::<M>, leak_probe: leak_probe::<M> } }
 }
